@@ -6,7 +6,7 @@ import ast
 
 from ..connectmodel import Point, points, run_point_states
 from ..model import AnalysisError, norm
-from ..execmodel import ExecHooks, descriptors, make_session
+from ..execmodel import ExecHooks, cset, descriptors, make_session
 from ..interp import explore
 from ..pipeline import stages
 from ..values import Const, NodeV, Obj, Str, Sym, tagof
@@ -85,7 +85,7 @@ def rule_file_naming(ctx):
 
         def run(I, with_path=with_path, kind=kind):
             duck, conn, cur = make_session()
-            conn.attrs["db_path"] = Sym("Path(db_path)", truthy=True, typ="path") if with_path else Const(None)
+            cset(conn, "db_path", Sym("Path(db_path)", truthy=True, typ="path") if with_path else Const(None))
             return I.call(I.getattr(cur, "_transform"), [descriptors()[kind]], {}, None)
         for p in explore(prog, lambda: ExecHooks(None), run, max_paths=16):
             v = p.value
